@@ -184,6 +184,12 @@ pub fn judge(case: &Case) -> Outcome {
                 Y::Sequence(vec![p.clone(), Y::String("a".into())]),
                 Y::Sequence(vec![Y::String("ia".into()), p.clone(), Y::String("?b".into())]),
                 Y::Sequence(vec![p.clone(), p.clone(), Y::String("*a*".into()), Y::String("b*".into())]),
+                Y::Sequence(vec![
+                    p.clone(),
+                    Y::String(text.replacen('?', "?a", 1)),
+                    Y::String(text.replacen('?', "?b", 1)),
+                    Y::String(text.replacen('?', "?c", 1)),
+                ]),
             ];
             for key in ["f1", "not(f1)", "str(f1)", "int(f1)", "flt(f1)"] {
                 for v in std::iter::once(&p).chain(lists.iter()) {
@@ -350,6 +356,10 @@ fn degenerate() -> Vec<String> {
     v.push("?\\".to_string());
     v.push("i?(?i)(".to_string());
     v.push("*".repeat(100));
+    v.push("?\\w{100}".to_string());
+    v.push("?\\w{300}".to_string());
+    v.push("?[a-z]{2000}".to_string());
+    v.push("?(\\pL{50}){20}".to_string());
     v
 }
 
